@@ -113,7 +113,7 @@ def run(ctx: Ctx) -> Report:
         raise Machinery("MC_Gait vacuity guard")
     cases = []
     for K in (8, 12, 16, 20, 32):
-        ms = list(range(1, K)) if K <= 16 else ctx.rng.sample(range(1, K), ctx.pick(6, 20))
+        ms = list(range(1, K)) if K <= 16 else ctx.rng.sample(range(1, K), min(K - 1, ctx.pick(6, 20)))
         for m in ms:
             cases.append({"kind": "pure", "K": K, "m": m, "n": ctx.pick(3 * K, 12 * K), "swing": ctx.rng.choice([0.15, 0.08, 0.25])})
     traces = [record_pure(c["K"], c["m"], c["n"], c["swing"]) for c in cases]
